@@ -230,6 +230,16 @@ def tlc_thread(results, key, jobs):
 
 
 def run(c):
+    try:
+        run_all(c)
+    except vlib.Infra as e:
+        # violations of the real code observed before an infrastructure problem of a later stage remain the verdict
+        if not c.violations:
+            raise
+        c.notes.append("stopped early, the violations observed before are the verdict: %s" % str(e)[:300])
+
+
+def run_all(c):
     rng = random.Random(c.seed)
     quick = c.tier == "quick"
     c.rule = ("every Prove step (committed history, root index, query key, encoding) of the exhaustive TLC graph of Proof.tla (Gen_Proof*.cfg) is "
